@@ -193,6 +193,14 @@ N_Fetch(f, late) ==
 G_LagExpire(f) == f # Leader /\ caught[f]
 N_LagExpire(f) == [Cur EXCEPT !.caught = [caught EXCEPT ![f] = FALSE]]
 
+\* ---- the leader's periodic health check of follower f (replicator.tick): it
+\* changes nothing by itself; it decides "out of sync" exactly when f was not seen
+\* caught up within the lag window, and then asks the controller to shrink (f in
+\* the ISR) or, when in sync and f outside the ISR, to expand
+G_Tick(f) == Leading(Leader) /\ f # Leader
+N_Tick(f) == Cur
+TickOutOfSync(f) == ~caught[f]
+
 \* ---- ISR shrink requested by the leader, committed by the controller,
 \* applied by every replica that is up (RemoveFromISR + commit check)
 G_Shrink(f) == Leading(Leader) /\ f # Leader /\ f \in meta.isr /\ ~caught[f]
